@@ -21,6 +21,9 @@ __CPROVER_assigns((n > 0 && PRIV_ON): __CPROVER_object_upto(dst, n))
 __CPROVER_ensures(__CPROVER_return_value == dst)
 __CPROVER_ensures((PRIV_ON && n > 0 && g_k >= (size_t)__CPROVER_POINTER_OFFSET(dst) && g_k - (size_t)__CPROVER_POINTER_OFFSET(dst) < n) ==>
                   ((const uint8_t *)dst)[g_k - (size_t)__CPROVER_POINTER_OFFSET(dst)] == ((const uint8_t *)src)[g_k - (size_t)__CPROVER_POINTER_OFFSET(dst)])
+/* explicit instances for the first two bytes (copies of 1..2 bytes, e.g. NUL padding) */
+__CPROVER_ensures((PRIV_ON && n >= 1) ==> ((const uint8_t *)dst)[0] == ((const uint8_t *)src)[0])
+__CPROVER_ensures((PRIV_ON && n >= 2) ==> ((const uint8_t *)dst)[1] == ((const uint8_t *)src)[1])
 {
     if (n) memcpy(dst, src, n);
     return dst;
@@ -67,24 +70,28 @@ static inline struct vec_u8 vec_u8_move(struct vec_u8 *o)
     struct vec_u8 v = *o; o->d = (uint8_t *)malloc(0); o->n = 0; return v;
 }
 
-/* resize(n): keeps min(old,n) leading elements, appends value-initialised (zero) elements.
- * The model always hands out a new buffer (the old one stays allocated and unchanged, nothing is freed). */
+/* resize(n): keeps min(old,n) leading elements, appends value-initialised (zero) elements.  Shrinking never reallocates
+ * (retained elements keep their addresses - C++ guarantee); growing hands out a new buffer in the model (the old one stays
+ * allocated and unchanged, nothing is freed). */
 void vec_u8_resize(struct vec_u8 *v, size_t n)
 __CPROVER_requires(__CPROVER_rw_ok(v, sizeof(*v)))
 __CPROVER_requires(v->n <= VEC_MAX)
-__CPROVER_requires(v->n == 0 || __CPROVER_r_ok(v->d, v->n))
+__CPROVER_requires(v->n == 0 || !PRIV_ON || __CPROVER_r_ok(v->d, v->n))
 __CPROVER_requires(n <= VEC_MAX)
 __CPROVER_ensures(v->n == n)
-__CPROVER_ensures(__CPROVER_is_fresh(v->d, n))
-__CPROVER_ensures((g_k < n && g_k < __CPROVER_old(v->n)) ==> v->d[g_k] == (__CPROVER_old(v->d))[g_k])
+__CPROVER_ensures(n <= __CPROVER_old(v->n) ==> v->d == __CPROVER_old(v->d))
+__CPROVER_ensures(n > __CPROVER_old(v->n) ==> __CPROVER_is_fresh(v->d, n))
+__CPROVER_ensures((n > __CPROVER_old(v->n) && g_k < __CPROVER_old(v->n)) ==> v->d[g_k] == (__CPROVER_old(v->d))[g_k])
 __CPROVER_ensures((g_k < n && g_k >= __CPROVER_old(v->n)) ==> v->d[g_k] == 0)
-__CPROVER_assigns(v->d, v->n)
+__CPROVER_assigns(v->n; n > v->n: v->d)
 {
-    uint8_t *nd = (uint8_t *)calloc(n ? n : 1, 1);
-    __CPROVER_assume(nd != 0);
-    size_t keep = v->n < n ? v->n : n;
-    if (keep) memcpy(nd, v->d, keep);
-    v->d = nd; v->n = n;
+    if (n > v->n) {
+        uint8_t *nd = (uint8_t *)calloc(n ? n : 1, 1);
+        __CPROVER_assume(nd != 0);
+        if (v->n) memcpy(nd, v->d, v->n);
+        v->d = nd;
+    }
+    v->n = n;
 }
 
 /* resize(n, val): shrinking never reallocates (retained elements keep their addresses - C++ guarantee); growing hands out
